@@ -6,6 +6,7 @@ package c15
 import (
 	"fmt"
 	"reflect"
+	"strings"
 	"testing"
 
 	"pgregory.net/rapid"
@@ -105,6 +106,23 @@ func gen(t *rapid.T) Case {
 			}
 		case 2:
 			c.Widths = append(c.Widths, rapid.IntRange(1, 12).Draw(t, "narrow"))
+		case 3:
+			// right around the length of the content and of its longest line: where "does it fit?" shortcuts go wrong
+			longest := 0
+			for _, line := range strings.Split(c.Doc.Content, "\n") {
+				if n := len([]rune(line)); n > longest {
+					longest = n
+				}
+			}
+			base := rapid.SampledFrom([]int{longest, len(c.Doc.Content), len([]rune(c.Doc.Content))}).Draw(t, "base")
+			w := base + rapid.IntRange(-3, 3).Draw(t, "delta")
+			if w < 1 {
+				w = 1
+			}
+			if w > 400 {
+				w = 400
+			}
+			c.Widths = append(c.Widths, w)
 		default:
 			c.Widths = append(c.Widths, rapid.IntRange(1, 200).Draw(t, "w"))
 		}
